@@ -25,7 +25,9 @@ class P(vlib.Prop):
             "absolute targets, followed by Create, Remove, MkdirAll, Mkdir, WriteFile, Link (new and old name beneath), Chmod, Mknod, Symlink beneath the link — as "
             "direct dirFS operation sequences (the model must give the same answer for EVERY operation and the same changed places inside and outside the root) "
             "and as package entries through the installer; the witnesses of c18_dirfs_confined_refuted_operational replayed; the case-insensitive mode "
-            "(DirFSWithCaseSensitive(false)): host calls must be a subset of the model's. paths stage also: url.PathUnescape and the alpine key file name, "
+            "(DirFSWithCaseSensitive(false)): host calls must be a subset of the model's; the class preexisting: a FRESH DirFS opened on a root populated beforehand "
+            "(plain os calls / an earlier DirFS session) with links of every kind, directories, files and a hard link — its own ReadDir+Readlink picture must be the "
+            "host's lstat image, then operations and package entries beneath and at those names. paths stage also: url.PathUnescape and the alpine key file name, "
             "os.CreateTemp / os.MkdirTemp names for 15 patterns, everything expandapk.ExpandApk creates in the directory it is given, and the place-returning "
             "lookup of the operational model against getNodeCountLinks' answer on every tree-lookup case. "
             "Every change outside the four designated directories is handed to the verified validator `escapes` and must be explained by the model as one of "
@@ -66,7 +68,9 @@ class P(vlib.Prop):
                   "target joined to the names traversed (the join's shape is read from memfs.go / tarfs) still begins with '..' makes every lookup through it fail "
                   "(what seeded change C18-4 breaks); ExpandApk's temporary directory, stream files and tar, PackageData's temporary file and the names cachePackage "
                   "advertises lie in the cache directory (every creating call of pkg/apk/expandapk and pkg/paths is read from the source with its arguments traced "
-                  "to parameters); fetchAlpineKeys' decoded key name can climb and is held back on DirFS only by that gate; "
+                  "to parameters); fetchAlpineKeys' decoded key name can climb and is held back on DirFS only by that gate; DirFS's walk over an existing root uses the "
+                  "DirEntry's own lstat (read from the source), so the overlay it builds is the lstat image of the root (the mirror function is the identity; with a "
+                  "link-following stat a link to a host directory becomes a directory in memory and Create beneath it escapes: refutation); "
                   "everything cachedPackage creates for a cached datahash lies in the cache directory whatever the datahash text is (the os.Stat that precedes the hex check can be aimed outside: refuted as a read-confinement claim). "
                   "The model is tied to the code by goextract (encoding, extensions, shape of each containment test, key path, maxLinks, order of host and overlay calls in every dirFS method, "
                   "cachedPackage's suffixes and the position of its hex check) and by differential comparison with the real functions; "
